@@ -222,128 +222,203 @@ def run(report, index, tier):
 
     XS = ExtractorTokens(index)
 
-    def token_of(name):
-        """(class, fields) of the single token that extracts `name`"""
-        v = defs.get(name)
-        if not isinstance(v, tuple) or len(v) != 1 or not isinstance(
-                v[0], CallTerm):
-            raise AnalysisError('extractor definition %s is not a single '
-                                'token: %r' % (name, v))
-        return XS.fields_of(v[0])
+    class _Keyed(object):
+        """the rule with a suffix on every key (one table per variant of
+        the definitions)"""
 
-    def extract(name, nodecls, lexeme):
-        cls, fields = token_of(name)
-        got = XS.run(cls, fields, Obj(nodecls, value=lexeme))
-        if isinstance(got, list) and len(got) == 1:
-            return got[0]
-        return got
+        def __init__(self, rule, sfx, base_failed):
+            self.rule, self.sfx, self.base = rule, sfx, base_failed
 
-    def same(a, b):
-        return type(a) == type(b) and a == b
-    import json as _json
-    # strings ------------------------------------------------------------
-    sdfa = LA.dfa(lm.rule('STRING'))
-    r.check(same(extract('String', 'String', '"abc"'), 'abc') and
-            same(extract('String', 'String', "'abc'"), 'abc'),
-            'String extracts the text', 'extractor definition String',
-            'the literal "abc" is extracted as %r' % (
-                extract('String', 'String', '"abc"'),),
-            where='unparsers/extractor.py:definitions')
-    for e, es5 in sorted(ES5_ESCAPE.items()):
-        lexeme = '"\\%s"' % e
-        if not sdfa.accepts_str(lexeme):
-            r.fail('escape \\%s not lexed' % e, 'JSON string %s'
-                   % lexeme, 'the ES5 lexer rejects the JSON escape '
-                   '\\%s' % e, where='lexers/es5.py:t_STRING')
-            continue
-        got = extract('String', 'String', lexeme)
-        r.check(same(got, es5) and same(es5, _json.loads(lexeme)),
-                'escape \\%s' % e, 'JSON/ES5 string %s' % lexeme,
-                'ES5 (and JSON) give the value %r but the extractor gives '
-                '%r for the same spelling' % (es5, got),
-                where='unparsers/extractor.py:%s' % token_of('String')[0],
-                witness='var a = %s' % lexeme)
-    # sequences of up to three units over plain characters and the JSON
-    # escapes: an escape must not change how its neighbours are read
-    import itertools as _it
-    units = ['a', '/', 'n', 'u', '0'] + ['\\' + e for e in sorted(
-        ES5_ESCAPE)] + ['\\u0041']
-    bad_seq = []
-    nseq = 0
-    for k in (2, 3):
-        for seq in _it.product(units, repeat=k):
-            lexeme = '"' + ''.join(seq) + '"'
+        def _dup(self, key, a):
+            # the same obligation failing with the same outcome in the
+            # base table: one defect, reported once (under the base key)
+            return bool(self.sfx) and self.base.get(key) == (
+                a[1] if len(a) > 1 else None)
+
+        def check(self, cond, key, *a, **k):
+            if not cond and not self.sfx:
+                self.base[key] = a[1] if len(a) > 1 else None
+            if not cond and self._dup(key, a):
+                return self.rule.ok(a[0] if a else key,
+                                    'as in the base table')
+            return self.rule.check(cond, key + self.sfx, *a, **k)
+
+        def fail(self, key, *a, **k):
+            if not self.sfx:
+                self.base[key] = a[1] if len(a) > 1 else None
+            elif self._dup(key, a):
+                return self.rule.ok(a[0] if a else key,
+                                    'as in the base table')
+            return self.rule.fail(key + self.sfx, *a, **k)
+
+        def ok(self, *a, **k):
+            return self.rule.ok(*a, **k)
+
+    # the definitions the extractor really uses: extractor(fold_ops=True)
+    # updates a copy of the table; an entry of the literal node types it
+    # replaces is decided like the original one
+    variants = [('', defs)]
+    from engine.srcindex import Folder
+    xfn = ext.functions.get('extractor')
+    if xfn is None:
+        raise AnalysisError('extractor.extractor vanished')
+    overrides = {}
+    for n in ast.walk(xfn):
+        d = None
+        if isinstance(n, ast.Call) and isinstance(
+                n.func, ast.Attribute) and n.func.attr == 'update' and \
+                n.args and isinstance(n.args[0], ast.Dict):
+            d = n.args[0]
+        if d is not None:
+            for k_, v_ in zip(d.keys, d.values):
+                if isinstance(k_, ast.Constant):
+                    overrides[k_.value] = v_
+        if isinstance(n, ast.Assign) and len(n.targets) == 1 and \
+                isinstance(n.targets[0], ast.Subscript) and isinstance(
+                    n.targets[0].slice, ast.Constant):
+            overrides[n.targets[0].slice.value] = n.value
+    literal_names = ('String', 'Number', 'Boolean', 'Null', 'UnaryExpr')
+    touched = sorted(k_ for k_ in overrides if k_ in literal_names)
+    report.count('R19.1: definitions replaced by extractor() options',
+                 len(overrides))
+    if touched:
+        defs2 = dict(defs)
+        for k_ in touched:
             try:
-                want = _json.loads(lexeme)
-            except ValueError:
-                continue
-            if not sdfa.accepts_str(lexeme):
-                continue
-            if '\\/' in lexeme:
-                continue        # known finding R19.1:escape \/
-            nseq += 1
-            got = extract('String', 'String', lexeme)
-            if not same(got, want):
-                bad_seq.append((lexeme, got, want))
-    report.count('R19.1: escape sequences of 2-3 units evaluated', nseq)
-    r.check(not bad_seq, 'escape sequences', 'JSON strings of 2-3 units',
-            '%d strings are extracted wrongly; first: %s gives %r, a JSON '
-            'parser gives %r' % ((len(bad_seq),) + (bad_seq[0] if bad_seq
-                                                    else ('', '', ''))),
-            where='unparsers/extractor.py:%s' % token_of('String')[0],
-            witness='var a = %s' % (bad_seq[0][0] if bad_seq else ''))
-    r.check(sdfa.accepts_str('"\\u0041"'), 'unicode escape lexed',
-            '"\\u0041"', 'the lexer rejects \\uXXXX')
-    for key, lexeme in (('unicode escape', '"\\u0041\\u00e9"'),
-                        ('surrogate pair', '"\\ud83d\\ude00"'),
-                        ('lone high surrogate', '"\\ud800"'),
-                        ('lone low surrogate inside text', '"a\\udc00b"'),
-                        ('surrogates in reverse order',
-                         '"\\ude00\\ud83d"'),
-                        ('high surrogate before a letter', '"\\ud83dx"')):
-        got = extract('String', 'String', lexeme)
-        want = _json.loads(lexeme)
-        r.check(same(got, want), key, 'JSON string %s' % lexeme,
-                'a JSON parser gives %r (%d code point(s)); the extractor '
-                'gives %r (%s code point(s))' % (
-                    want, len(want), got, len(got) if isinstance(got, str)
-                    else '?'),
-                where='unparsers/extractor.py:%s' % token_of('String')[0],
-                witness='var a = %s' % lexeme)
-    # numbers --------------------------------------------------------------
-    ndfa = LA.dfa(lm.rule('NUMBER'))
-    jdfa = LA.compile(JSON_NUMBER).dfa
-    ok, w = includes(ndfa, jdfa)
-    r.check(ok, 'JSON numbers lex as NUMBER', 'L(JSON number) subset of '
-            'L(NUMBER)', 'the lexer does not accept the JSON number %r as '
-            'one NUMBER token' % (LA.alpha.word(w) if w else ''),
-            where='lexers/es5.py:t_NUMBER')
-    for form in ('0', '7', '12', '100', '1.5', '0.25', '0.0', '1e5', '1E+5',
-                 '2.5e-3', '0e0', '0E5', '0e-3', '10e2', '1.0e1'):
-        got = extract('Number', 'Number', form)
-        want = _json.loads(form)
-        r.check(ndfa.accepts_str(form) and jdfa.accepts_str(form) and
-                same(got, want), 'number form %s' % form,
-                'number %s' % form,
-                'the number %s is extracted as %r, a JSON parser gives %r'
-                % (form, got, want),
-                where='unparsers/extractor.py:%s' % token_of('Number')[0],
-                witness='var a = %s' % form)
-    for text, want in (('true', True), ('false', False)):
-        got = extract('Boolean', 'Boolean', text)
-        r.check(got is want, 'Boolean mapping %s' % text,
-                'extractor definition Boolean on %s' % text,
-                '%s is extracted as %r' % (text, got),
+                defs2[k_] = Folder(ext, None).fold(overrides[k_])
+            except Unfoldable as e:
+                raise AnalysisError(
+                    'extractor() replaces the definition of %s by a value '
+                    'that cannot be folded: %s' % (k_, e))
+        variants.append((' [definitions of extractor() options]', defs2))
+    base_rule = r
+    base_failed = {}
+    for sfx, defs in variants:
+        r = _Keyed(base_rule, sfx, base_failed)
+
+        def token_of(name):
+            """(class, fields) of the single token that extracts `name`"""
+            v = defs.get(name)
+            if not isinstance(v, tuple) or len(v) != 1 or not isinstance(
+                    v[0], CallTerm):
+                raise AnalysisError('extractor definition %s is not a single '
+                                    'token: %r' % (name, v))
+            return XS.fields_of(v[0])
+
+        def extract(name, nodecls, lexeme):
+            cls, fields = token_of(name)
+            got = XS.run(cls, fields, Obj(nodecls, value=lexeme))
+            if isinstance(got, list) and len(got) == 1:
+                return got[0]
+            return got
+
+        def same(a, b):
+            return type(a) == type(b) and a == b
+        import json as _json
+        # strings ------------------------------------------------------------
+        sdfa = LA.dfa(lm.rule('STRING'))
+        r.check(same(extract('String', 'String', '"abc"'), 'abc') and
+                same(extract('String', 'String', "'abc'"), 'abc'),
+                'String extracts the text', 'extractor definition String',
+                'the literal "abc" is extracted as %r' % (
+                    extract('String', 'String', '"abc"'),),
                 where='unparsers/extractor.py:definitions')
-    got = extract('Null', 'Null', 'null')
-    r.check(got is None, 'Null mapping', 'extractor definition Null',
-            'null is extracted as %r' % (got,),
-            where='unparsers/extractor.py:definitions')
-    # unary minus is folded separately
-    u = defs.get('UnaryExpr')
-    r.check(u is not None and 'GroupAsUnaryExprMinus' in repr(u),
-            'negative numbers', 'extractor definition UnaryExpr',
-            'negative numbers are not folded by GroupAsUnaryExprMinus')
+        for e, es5 in sorted(ES5_ESCAPE.items()):
+            lexeme = '"\\%s"' % e
+            if not sdfa.accepts_str(lexeme):
+                r.fail('escape \\%s not lexed' % e, 'JSON string %s'
+                       % lexeme, 'the ES5 lexer rejects the JSON escape '
+                       '\\%s' % e, where='lexers/es5.py:t_STRING')
+                continue
+            got = extract('String', 'String', lexeme)
+            r.check(same(got, es5) and same(es5, _json.loads(lexeme)),
+                    'escape \\%s' % e, 'JSON/ES5 string %s' % lexeme,
+                    'ES5 (and JSON) give the value %r but the extractor gives '
+                    '%r for the same spelling' % (es5, got),
+                    where='unparsers/extractor.py:%s' % token_of('String')[0],
+                    witness='var a = %s' % lexeme)
+        # sequences of up to three units over plain characters and the JSON
+        # escapes: an escape must not change how its neighbours are read
+        import itertools as _it
+        units = ['a', '/', 'n', 'u', '0'] + ['\\' + e for e in sorted(
+            ES5_ESCAPE)] + ['\\u0041']
+        bad_seq = []
+        nseq = 0
+        for k in (2, 3):
+            for seq in _it.product(units, repeat=k):
+                lexeme = '"' + ''.join(seq) + '"'
+                try:
+                    want = _json.loads(lexeme)
+                except ValueError:
+                    continue
+                if not sdfa.accepts_str(lexeme):
+                    continue
+                if '\\/' in lexeme:
+                    continue        # known finding R19.1:escape \/
+                nseq += 1
+                got = extract('String', 'String', lexeme)
+                if not same(got, want):
+                    bad_seq.append((lexeme, got, want))
+        report.count('R19.1: escape sequences of 2-3 units evaluated', nseq)
+        r.check(not bad_seq, 'escape sequences', 'JSON strings of 2-3 units',
+                '%d strings are extracted wrongly; first: %s gives %r, a JSON '
+                'parser gives %r' % ((len(bad_seq),) + (bad_seq[0] if bad_seq
+                                                        else ('', '', ''))),
+                where='unparsers/extractor.py:%s' % token_of('String')[0],
+                witness='var a = %s' % (bad_seq[0][0] if bad_seq else ''))
+        r.check(sdfa.accepts_str('"\\u0041"'), 'unicode escape lexed',
+                '"\\u0041"', 'the lexer rejects \\uXXXX')
+        for key, lexeme in (('unicode escape', '"\\u0041\\u00e9"'),
+                            ('surrogate pair', '"\\ud83d\\ude00"'),
+                            ('lone high surrogate', '"\\ud800"'),
+                            ('lone low surrogate inside text', '"a\\udc00b"'),
+                            ('surrogates in reverse order',
+                             '"\\ude00\\ud83d"'),
+                            ('high surrogate before a letter', '"\\ud83dx"')):
+            got = extract('String', 'String', lexeme)
+            want = _json.loads(lexeme)
+            r.check(same(got, want), key, 'JSON string %s' % lexeme,
+                    'a JSON parser gives %r (%d code point(s)); the extractor '
+                    'gives %r (%s code point(s))' % (
+                        want, len(want), got, len(got) if isinstance(got, str)
+                        else '?'),
+                    where='unparsers/extractor.py:%s' % token_of('String')[0],
+                    witness='var a = %s' % lexeme)
+        # numbers --------------------------------------------------------------
+        ndfa = LA.dfa(lm.rule('NUMBER'))
+        jdfa = LA.compile(JSON_NUMBER).dfa
+        ok, w = includes(ndfa, jdfa)
+        r.check(ok, 'JSON numbers lex as NUMBER', 'L(JSON number) subset of '
+                'L(NUMBER)', 'the lexer does not accept the JSON number %r as '
+                'one NUMBER token' % (LA.alpha.word(w) if w else ''),
+                where='lexers/es5.py:t_NUMBER')
+        for form in ('0', '7', '12', '100', '1.5', '0.25', '0.0', '1e5', '1E+5',
+                     '2.5e-3', '0e0', '0E5', '0e-3', '10e2', '1.0e1'):
+            got = extract('Number', 'Number', form)
+            want = _json.loads(form)
+            r.check(ndfa.accepts_str(form) and jdfa.accepts_str(form) and
+                    same(got, want), 'number form %s' % form,
+                    'number %s' % form,
+                    'the number %s is extracted as %r, a JSON parser gives %r'
+                    % (form, got, want),
+                    where='unparsers/extractor.py:%s' % token_of('Number')[0],
+                    witness='var a = %s' % form)
+        for text, want in (('true', True), ('false', False)):
+            got = extract('Boolean', 'Boolean', text)
+            r.check(got is want, 'Boolean mapping %s' % text,
+                    'extractor definition Boolean on %s' % text,
+                    '%s is extracted as %r' % (text, got),
+                    where='unparsers/extractor.py:definitions')
+        got = extract('Null', 'Null', 'null')
+        r.check(got is None, 'Null mapping', 'extractor definition Null',
+                'null is extracted as %r' % (got,),
+                where='unparsers/extractor.py:definitions')
+        # unary minus is folded separately
+        u = defs.get('UnaryExpr')
+        r.check(u is not None and 'GroupAsUnaryExprMinus' in repr(u),
+                'negative numbers', 'extractor definition UnaryExpr',
+                'negative numbers are not folded by GroupAsUnaryExprMinus')
+    r = base_rule
     # R19.2: the tokens that build the value ------------------------------
     r2 = report.rule('R19.2', 'extractor tokens yield the JSON value '
                      '(decision table by abstract evaluation)', floor=8)
